@@ -108,9 +108,11 @@ Definition resize_to (st : state) (i : nat) (n : nat) (rpb : Z) (force : bool) :
        then new_buf_for st i (mkBuf ext (ztake ext (rows b)))             (* ValueError -> copy(); resize *)
        else set_buf st (sbuf s) (mkBuf ext (ztake ext (rows b))).         (* in place *)
 
-(* shrink_data: resize((next_offset,)+common_shape, refcheck=False) on the shared object *)
+(* shrink_data: nothing on a view; else resize((next_offset,)+common_shape, refcheck=False) in place *)
 Definition shrink (st : state) (i : nat) : state :=
   let s := getseq st i in
+  if is_view s then st              (* fix deb32026: the buffer also holds rows of the parent *)
+  else
   let b := getbuf (heap st) (sbuf s) in
   let n := next_offset (offs s) (lens s) in
   set_buf st (sbuf s) (mkBuf (Z.of_nat n) (firstn n (rows b))).
